@@ -26,7 +26,8 @@ LEVEL = ("necessary conditions, each of which yields a SyntaxError / NameError /
          "and type strings that belong to the import universe are imported by the host header or the kind's get_imports); the "
          "check_ helper is named by one expression of the enum at definition, import and use; lazily imported model classes are imported in "
          "every function that uses them at run time; evaluated annotations are quoted; attribute declaration order (truth "
-         "table); lexical neutrality of every template block; dispatch totality; names never start with an underscore; every rename "
+         "table); parameter lists valid on every rendering (defaults of positional parameters in order with and without the `*,` "
+         "separator, a written separator followed by a parameter); lexical neutrality of every template block; dispatch totality; names never start with an underscore; every rename "
          "made to resolve an argument-name conflict is re-checked; directories that receive document-named modules are rebuilt "
          "from empty.")
 
@@ -91,6 +92,11 @@ class PathStrings(StringCollector):
     def collect(self, f: Any, cls: Any, env: dict[str, bool], depth: int = 0, defining: Any = None) -> set[str]:
         return super().collect(f, cls, dict(env), depth, defining)  # the atoms are updated along the path: never the caller's dict
 
+    def _expr(self, node: ast.AST, cls: Any, env: dict[str, bool], out: set[str], depth: int, f: Any, defining: Any) -> None:
+        """a conditional expression is the same decision as an `if` statement: of `a if c else b` only the operand that the known atoms
+        select is executed (likewise the operands of `and` / `or` behind one that decides the result)"""
+        return super()._expr(_executed(node, env), cls, env, out, depth, f, defining)
+
     def _block(self, body: list[ast.stmt], cls: Any, env: dict[str, bool], out: set[str], depth: int, f: Any, defining: Any) -> bool:
         for st in body:
             if isinstance(st, ast.Expr) and isinstance(st.value, ast.Constant):
@@ -133,6 +139,39 @@ class PathStrings(StringCollector):
             if val is not None:
                 env[tgts[0].id] = val
         return False
+
+
+class _Executed(ast.NodeTransformer):
+    def __init__(self, env: dict[str, bool]) -> None:
+        self.env = env
+        self.changed = False
+
+    def visit_IfExp(self, n: ast.IfExp) -> ast.AST:
+        v = _tv(n.test, self.env)
+        if v is None:
+            return self.generic_visit(n)
+        self.changed = True
+        return ast.Tuple(elts=[self.visit(n.test), self.visit(n.body if v else n.orelse)], ctx=ast.Load())
+
+    def visit_BoolOp(self, n: ast.BoolOp) -> ast.AST:
+        absorbing = isinstance(n.op, ast.Or)
+        for i, v in enumerate(n.values[:-1]):
+            if _tv(v, self.env) is absorbing:  # the operands behind it are not evaluated
+                self.changed = True
+                return ast.Tuple(elts=[self.visit(x) for x in n.values[:i + 1]], ctx=ast.Load())
+        return self.generic_visit(n)
+
+
+def _executed(node: ast.AST, env: dict[str, bool]) -> ast.AST:
+    """the expression / statement without the operands that the known atoms leave unevaluated (a copy; the node itself where nothing is
+    decided)"""
+    if not any(isinstance(n, (ast.IfExp, ast.BoolOp)) for n in ast.walk(node)):
+        return node
+    import copy
+
+    tr = _Executed(env)
+    new = tr.visit(copy.deepcopy(node))
+    return new if tr.changed else node
 
 
 def _forget(env: dict[str, bool], names: set[str]) -> None:
@@ -919,8 +958,12 @@ def run(rep: Report, ctx: Any) -> str:
                       "`if TYPE_CHECKING:` line")
     rep.rule("R01.3", "evaluated annotations that can denote a lazily imported class are quoted")
     rep.rule("R01.4", "declaration order: the declaration passes of the class body partition the attributes over (default is none, required), "
-                      "no pass mixes attributes with and without default, passes without default come first; positional parameters do not "
-                      "carry defaults out of order")
+                      "no pass mixes attributes with and without default, passes without default come first; in a parameter list (the "
+                      "bracket group or macro body that writes the separator `*,`), on every rendering - every number of elements (0, 1, 2) "
+                      "of the collections it loops over or measures, every value of its other conditions - no positional parameter that may "
+                      "lack a default (an element's to_string(), text without `=`) follows one that may carry one, where positional means "
+                      "before the separator and, on a rendering on which the separator is not written, everywhere; and a separator that is "
+                      "written is followed by a parameter")
     rep.rule("R01.5", "lexical neutrality: every template block leaves the lexer of the generated language in the state it found it; no "
                       "newline-inserting filter inside a single-line string; inside a triple-quoted literal no hole that can carry document "
                       "text stands directly before the closing delimiter unless its escaping neutralises the quote character and the "
@@ -1141,29 +1184,8 @@ def run(rep: Report, ctx: Any) -> str:
                   "after an attribute with a default value' at import)", where=f"{PKG}/templates/model.py.jinja:{decl[0]['line']}",
                   lhs=[[[("" if pol else "not ") + rel(p_, expr_text(t_)) for t_, pol in site] for site in p_["sites"]] for p_ in decl],
                   rhs="passes partition the attributes; (default is none and required) first, the rest after")
-    # a parameter list: text in which the separator `*,` is written.  Wherever it is put together (a macro, the macros it expands, a
-    # partial), the parameters written before the separator are positional; the loop over the path parameters that writes
-    # `<element>.to_string()` there writes their defaults, in path order
-    lists: list[tuple[Any, list[Any], int]] = []
-    for tn_, ti_ in sorted(jx.templates.items()):
-        run_ = _TplRun(jx, ti_)
-        for mname_, body_ in [("<top>", ti_.tree.body)] + [(m_.name, m_.body) for m_ in ti_.macros.values()]:
-            afr = list(run_.frags(body_, ti_))
-            star = next((i for i, f in enumerate(afr) if f.kind == "data" and re.search(r"(?m)^[ \t]*\*,", f.text)), None)
-            if star is not None:
-                lists.append((ti_, afr, star))
-    rep.require(lists, "a template text that writes the `*,` separator of a parameter list")
-    hit = None
-    for ti_, afr, star in lists:
-        pos = [i for i, f in enumerate(afr[:star]) if f.kind == "expr" and f.loops and _domain_text(f.loops[-1]) == "endpoint.path_parameters"
-               and f.targets[-1] and f.text == f"{f.targets[-1]}.to_string()"]
-        if pos and hit is None:
-            hit = (ti_, afr[pos[0]])
-    if hit is not None:
-        rep.fail("R01.4", "endpoint_macros.py.jinja::arguments::positional-defaults",
-                 "path parameters are positional and emitted through to_string(), which carries the schema default: a defaulted path parameter "
-                 "before one without default is a SyntaxError in every function of the endpoint module", where=f"{PKG}/templates/{hit[0].name}:{hit[1].line}",
-                 lhs="to_string() before `*,`", rhs="no defaults, or defaulted ones last")
+    # parameter lists (the text around a `*,` separator): see _parameter_lists
+    _parameter_lists(rep, ctx)
     # ---- R01.5 ---------------------------------------------------------------------------------------------------------------------
     rep.check(not ji.neutrality, "R01.5", "templates::lexically-neutral-blocks", f"some template block changes the lexical state: {list(ji.neutrality.values())[:2]}",
               where="", lhs=len(ji.neutrality), rhs=0)
@@ -1232,6 +1254,414 @@ def run(rep: Report, ctx: Any) -> str:
     # ---- R01.12 -------------------------------------------------------------------------------------------------------------------------
     _names_bound(rep, ctx, universe)
     return LEVEL
+
+
+# ---- R01.4, parameter lists ------------------------------------------------------------------------------------------------------------
+# A parameter list is the bracket group (or the whole macro body, when the brackets are written by the caller) in which the separator
+# `*,` is written.  What Python asks of it: among the parameters that are positional - those before the separator, and ALL of them on
+# a rendering on which the separator is not written - none without a default follows one with a default; and a separator that is
+# written is followed by a parameter.  Which parameters are written depends on the rendering: on how many elements each collection
+# has that the list loops over or asks the length of (0, 1, 2: two elements of one collection are enough to be out of order) and on
+# the conditions it tests.  The list is therefore rendered for every such assignment - loops as many times as their collection is
+# long, conditions evaluated (`|length`, comparisons of lengths, truth of a collection, and / or / not; the length of what a method
+# of the package returns as a concatenation of its object's collections is the sum of theirs; anything else is a free atom) - and each
+# rendering is cut at the commas of the group.  A parameter written as `<element>.to_string()` carries whatever default the document
+# gives it (may or may not have one), a parameter written as text has one exactly when the text has a `=`.
+_LEN_FILTERS = ("length", "count")
+
+
+class _Len(int):
+    """the number of elements of a collection"""
+
+
+class _ListEval:
+    def __init__(self, ix: Any, defs: "dict[str, list[nodes.Node]] | None" = None) -> None:
+        self.ix = ix
+        self.defs = defs or {}  # template-local names and what they are `set` to
+        self.colls: list[str] = []
+        self.atoms: list[str] = []
+        self.unresolved: list[str] = []
+        self.env: dict[str, Any] = {}
+        self.recording = True
+        self._concat: dict[str, "list[str] | None"] = {}
+
+    def _coll(self, key: str) -> _Len:
+        if key not in self.colls:
+            self.colls.append(key)
+        return _Len(self.env.get(key, 0))
+
+    def _atom(self, key: str) -> bool:
+        if key not in self.atoms:
+            self.atoms.append(key)
+        return bool(self.env.get(key, False))
+
+    def parts_of(self, name: str) -> "list[str] | None":
+        """attributes of its object whose concatenation the method (or property) `name` of the package returns: [] when there is no such
+        method, None when there is one and its result is not such a concatenation"""
+        if name in self._concat:
+            return self._concat[name]
+        fs = [f for f in self.ix.all_functions if f.name == name and f.cls is not None]
+        got: "list[str] | None" = []
+        if fs:
+            alts = [_concat_parts(self.ix, f) for f in fs]
+            got = alts[0] if all(a is not None and a == alts[0] for a in alts) else None
+        self._concat[name] = got
+        return got
+
+    def seq(self, n: nodes.Node) -> _Len:
+        """the length of an iterable"""
+        n = self._defined(n)
+        while isinstance(n, nodes.Filter) and n.name in _ORDER_ONLY and n.node is not None and not n.args:
+            n = self._defined(n.node)
+        if isinstance(n, nodes.Add):
+            return _Len(self.seq(n.left) + self.seq(n.right))
+        if isinstance(n, (nodes.List, nodes.Tuple)):
+            return _Len(len(n.items))
+        recv, name = None, None
+        if isinstance(n, nodes.Call) and isinstance(n.node, nodes.Getattr) and not (n.args or n.kwargs or n.dyn_args or n.dyn_kwargs):
+            recv, name = n.node.node, n.node.attr
+        elif isinstance(n, nodes.Getattr):
+            recv, name = n.node, n.attr
+        if name is not None:
+            parts = self.parts_of(name)
+            if parts is None:
+                if expr_text(n) not in self.unresolved:
+                    self.unresolved.append(expr_text(n))
+            elif parts:
+                r = _unparen(expr_text(recv))
+                return _Len(sum(self._coll(f"{r}.{a}") for a in parts))
+        return self._coll(_domain_text(expr_text(n)))
+
+    def _defined(self, n: nodes.Node, depth: int = 0) -> nodes.Node:
+        """a variable that is `set` once reads as what it is set to"""
+        while isinstance(n, nodes.Name) and depth < 6:
+            ds = self.defs.get(n.name, [])
+            if len(ds) != 1 or not isinstance(ds[0], nodes.Expr):
+                break
+            n, depth = ds[0], depth + 1
+        return n
+
+    def is_seq(self, n: nodes.Node) -> bool:
+        n = self._defined(n)
+        if isinstance(n, (nodes.Add, nodes.List, nodes.Tuple)):
+            return True
+        if isinstance(n, nodes.Filter) and n.name in _ORDER_ONLY and n.node is not None:
+            return self.is_seq(n.node)
+        if isinstance(n, nodes.Call) and isinstance(n.node, nodes.Getattr):
+            return bool(self.parts_of(n.node.attr))
+        return _domain_text(expr_text(n)) in self.colls or (isinstance(n, nodes.Getattr) and bool(self.parts_of(n.attr)))
+
+    def val(self, n: nodes.Node) -> Any:
+        n = self._defined(n)
+        if isinstance(n, nodes.Const):
+            return n.value
+        if isinstance(n, nodes.Not):
+            return not self.val(n.node)
+        if isinstance(n, (nodes.And, nodes.Or)):
+            l = self.val(n.left)
+            if self.recording or bool(l) == isinstance(n, nodes.And):  # (while the atoms are being collected: both operands)
+                r = self.val(n.right)
+                return r if bool(l) == isinstance(n, nodes.And) else l
+            return l
+        if isinstance(n, nodes.CondExpr):
+            c = self.val(n.test)
+            a, b = self.val(n.expr1), (self.val(n.expr2) if n.expr2 is not None else None)
+            return a if c else b
+        if isinstance(n, nodes.Filter) and n.name in _LEN_FILTERS and n.node is not None:
+            return int(self.seq(n.node))
+        if isinstance(n, nodes.Compare) and len(n.ops) == 1:
+            l, r = self.val(n.expr), self.val(n.ops[0].expr)
+            num = lambda x: isinstance(x, int) and not isinstance(x, bool)  # noqa: E731
+            if num(l) and num(r):
+                op = n.ops[0].op
+                return {"eq": l == r, "ne": l != r, "gt": l > r, "gteq": l >= r, "lt": l < r, "lteq": l <= r}.get(op, False)
+            return self._atom(_unparen(expr_text(n)))
+        if self.is_seq(n):
+            return self.seq(n)
+        return self._atom(_unparen(expr_text(n)))
+
+
+def _concat_parts(ix: Any, f: Any, nested: bool = False, level: int = 0) -> "list[str] | None":
+    """[X, Y, ...] when the method returns, on its only path, a list with one element per element of self.X, of self.Y, ... (nested: a
+    collection whose members are self.X, self.Y, ... themselves); else None.  Written as a concatenation, a display with starred
+    parts, a comprehension that keeps every element, a chain over the collections or over the values of a table of them - in the
+    method or in a helper method of the class that it calls."""
+    fn = f.node
+    own = list(ast.walk(fn))
+    rets = [n for n in own if isinstance(n, ast.Return)]
+    if len(rets) != 1 or rets[0].value is None or level > 3 or \
+            any(isinstance(n, (ast.If, ast.For, ast.While, ast.Try, ast.FunctionDef, ast.Lambda)) and n is not fn for n in own):
+        return None
+    once = _once_bound(fn)
+
+    def helper(e: ast.AST, want_nested: bool) -> "list[str] | None":
+        if isinstance(e, ast.Call) and isinstance(e.func, ast.Attribute) and isinstance(e.func.value, ast.Name) and e.func.value.id == "self" \
+                and not e.args and not e.keywords and f.cls is not None:
+            m = ix.find_method(f.cls, e.func.attr)
+            if m is not None and m != f:
+                return _concat_parts(ix, m, want_nested, level + 1)
+        return None
+
+    def colls(e: ast.AST, depth: int = 0) -> "list[str] | None":
+        """e is a collection of the collections self.X, ..."""
+        if isinstance(e, ast.Name) and e.id in once and depth < 6:
+            return colls(once[e.id], depth + 1)
+        if isinstance(e, (ast.List, ast.Tuple)) or (isinstance(e, ast.Dict) and None not in e.keys):
+            out: list[str] = []
+            for x in (e.values if isinstance(e, ast.Dict) else e.elts):
+                if not (isinstance(x, ast.Attribute) and isinstance(x.value, ast.Name) and x.value.id == "self"):
+                    return None
+                out.append(x.attr)
+            return out
+        if isinstance(e, ast.Call) and isinstance(e.func, ast.Attribute) and e.func.attr == "values" and not e.args and not e.keywords:
+            return colls(e.func.value, depth)  # (a table of collections: its values)
+        return helper(e, True)
+
+    def parts(e: ast.AST, depth: int = 0) -> "list[str] | None":
+        if isinstance(e, ast.Name) and e.id in once and depth < 6:
+            return parts(once[e.id], depth + 1)
+        if isinstance(e, ast.Attribute) and isinstance(e.value, ast.Name) and e.value.id == "self":
+            return [e.attr]
+        if isinstance(e, ast.BinOp) and isinstance(e.op, ast.Add):
+            l, r = parts(e.left, depth), parts(e.right, depth)
+            return None if l is None or r is None else l + r
+        if isinstance(e, (ast.List, ast.Tuple)):
+            out: list[str] = []
+            for x in e.elts:
+                got = parts(x.value, depth) if isinstance(x, ast.Starred) else None
+                if got is None:
+                    return None
+                out += got
+            return out
+        if isinstance(e, (ast.ListComp, ast.GeneratorExp)) and len(e.generators) == 1 and not e.generators[0].ifs:
+            return parts(e.generators[0].iter, depth)
+        if isinstance(e, ast.Call):
+            name = call_name(e)
+            if name in ("list", "tuple", "sorted", "reversed") and len(e.args) == 1 and not isinstance(e.args[0], ast.Starred):
+                return parts(e.args[0], depth)
+            if name.endswith("chain.from_iterable") and len(e.args) == 1 and not e.keywords:
+                return colls(e.args[0], depth)
+            if name.split(".")[-1] == "chain" and not e.keywords:
+                if len(e.args) == 1 and isinstance(e.args[0], ast.Starred):
+                    return colls(e.args[0].value, depth)
+                out = []
+                for x in e.args:
+                    got = None if isinstance(x, ast.Starred) else parts(x, depth)
+                    if got is None:
+                        return None
+                    out += got
+                return out
+            if name == "sum" and len(e.args) == 2 and isinstance(e.args[1], ast.List) and not e.args[1].elts:
+                return colls(e.args[0], depth)
+            return helper(e, False)
+        return None
+
+    return (colls if nested else parts)(rets[0].value)
+
+
+def _loop_tree(frs: list[tuple[int, Any]], depth: int = 0) -> list[Any]:
+    """the fragments grouped by the runs of the loops they stand in: a fragment (index, fragment) or (iterable, [items of the body])"""
+    out: list[Any] = []
+    i = 0
+    while i < len(frs):
+        f = frs[i][1]
+        if len(f.lids) <= depth:
+            out.append(frs[i])
+            i += 1
+            continue
+        j = i
+        while j < len(frs) and len(frs[j][1].lids) > depth and frs[j][1].lids[depth] == f.lids[depth]:
+            j += 1
+        out.append((f.lnodes[depth], _loop_tree(frs[i:j], depth + 1)))
+        i = j
+    return out
+
+
+class _Param:
+    def __init__(self, idx: int) -> None:
+        self.idx, self.text, self.elem, self.eq, self.line = idx, "", None, False, 0
+
+    @property
+    def kind(self) -> str:
+        t = self.text.strip()
+        if self.elem is None and t.startswith("**"):
+            return "kw"
+        if self.elem is None and t.startswith("*"):
+            return "star"
+        if self.elem is None and t in ("", "/"):
+            return "none"
+        if self.elem is not None:
+            return "M"  # may or may not carry a default
+        return "D" if self.eq else "N"
+
+    @property
+    def what(self) -> str:
+        if self.elem is not None:
+            return self.elem
+        m = re.match(r"\s*([^\W\d]\w*)", self.text)
+        return m.group(1) if m else self.text.strip()[:20]
+
+
+class _Group:
+    def __init__(self, opened: "tuple[int, int] | None", lo: int) -> None:
+        self.opened = opened  # (fragment, offset in it) of the bracket that opens the group; None: the text outside all brackets
+        self.lo, self.hi = lo, lo
+        self.params: list[_Param] = [_Param(lo)]
+
+
+def _groups(rendered: list[tuple[int, Any]]) -> list[_Group]:
+    """the comma-separated pieces of every bracket group of the text (and of the text outside all brackets), innermost first"""
+    done: list[_Group] = []
+    first = rendered[0][0] if rendered else 0
+    stack: list[_Group] = [_Group(None, first)]
+    for idx, f in rendered:
+        cur = stack[-1].params[-1]
+        if f.kind == "expr":
+            if ".to_string()" in f.text:
+                cur.elem = _domain_text(f.loops[-1]) if f.loops else f.text
+            if not cur.text.strip():
+                cur.idx, cur.line = idx, f.line
+            cur.text += "\x00"
+            continue
+        prev = ""
+        for off, ch in enumerate(f.text):
+            cur = stack[-1].params[-1]
+            if not cur.text.strip():
+                cur.idx, cur.line = idx, f.line
+            if ch in "([{":
+                cur.text += ch
+                stack.append(_Group((idx, off), idx))
+            elif ch in ")]}":
+                g = stack.pop()
+                g.hi = idx
+                done.append(g)
+                if not stack:  # (a bracket closed that the text did not open: what came before it was a group of its own)
+                    stack.append(_Group(None, idx))
+                stack[-1].params[-1].text += ch
+            elif ch == ",":
+                stack[-1].params.append(_Param(idx))
+            else:
+                if ch == "=":
+                    cur.eq = prev not in ("=", "!", "<", ">")
+                cur.text += ch
+            prev = ch
+    while stack:
+        g = stack.pop()
+        g.hi = rendered[-1][0] if rendered else first
+        done.append(g)
+    return done
+
+
+def _parameter_lists(rep: Report, ctx: Any) -> None:
+    import itertools
+
+    ix, jx = ctx.py, ctx.jinja
+    n_lists = 0
+    legacy: "tuple[str, int] | None" = None
+    defs: dict[str, list[nodes.Node]] = {}
+    for t_ in jx.templates.values():
+        for k, v in _set_defs(t_.tree).items():
+            defs.setdefault(k, [])
+            defs[k] += [d for d in v if not any(d is x for x in defs[k])]
+    for tn_, ti_ in sorted(jx.templates.items()):
+        for mname_, body_ in [("<top>", ti_.tree.body)] + [(m_.name, m_.body) for m_ in ti_.macros.values()]:
+            afr = list(_TplRun(jx, ti_).frags(body_, ti_))
+            # the separators written in the body itself (what a macro it expands writes is that macro's list)
+            stars = {i for i, f in enumerate(afr) if f.kind == "data" and f.origin is None and re.search(r"(?m)^[ \t]*\*,", f.text)}
+            if not stars:
+                continue
+            # the groups the separators are written in: the text rendered once with everything in it
+            lists = [g for g in _groups(list(enumerate(afr))) if any(p_.kind == "star" and p_.idx in stars for p_ in g.params)]
+            rep.require(lists, f"the parameter list around the `*,` of {tn_}::{mname_}")
+            for gi, lst in enumerate(lists):
+                n_lists += 1
+                found = _list_findings(rep, ix, afr, lst, f"{tn_}::{mname_}", defs)
+                if "positional-defaults" in found and legacy is None:
+                    legacy = (tn_, found["positional-defaults"][1])
+                others = {k: v for k, v in found.items() if k != "positional-defaults"}
+                sfx = f"#{gi}" if gi else ""
+                rep.check(not others, "R01.4", f"{tn_}::{mname_}::separator-where-needed{sfx}",
+                          f"the parameter list is not valid on every rendering: {sorted(others)}", where=f"{PKG}/templates/{tn_}",
+                          lhs=sorted(others), rhs="`*,` written on exactly the renderings on which a parameter follows it; positional defaults in order")
+                for k, (msg, line, shown) in sorted(others.items()):
+                    rep.fail("R01.4", f"{tn_}::{mname_}::{k}{sfx}", msg, where=f"{PKG}/templates/{tn_}:{line}", lhs=f"rendering with {shown}",
+                             rhs="no parameter without default after one with default among the positional ones; a parameter after a bare *")
+    rep.require(n_lists, "a template text that writes the `*,` separator of a parameter list")
+    rep.floor("parameter_lists", n_lists, 1)
+    if legacy is not None:
+        rep.fail("R01.4", "endpoint_macros.py.jinja::arguments::positional-defaults",
+                 "path parameters are positional and emitted through to_string(), which carries the schema default: a defaulted path parameter "
+                 "before one without default is a SyntaxError in every function of the endpoint module", where=f"{PKG}/templates/{legacy[0]}:{legacy[1]}",
+                 lhs="to_string() before `*,`", rhs="no defaults, or defaulted ones last")
+
+
+def _list_findings(rep: Report, ix: Any, afr: list[Any], lst: _Group, name: str, defs: dict) -> dict[str, tuple[str, int, Any]]:
+    import itertools
+
+    frs = [(i, f) for i, f in enumerate(afr) if lst.lo <= i <= lst.hi]
+    tree = _loop_tree(frs)
+    ev = _ListEval(ix, defs)
+    for _, f in frs:  # the collections first (what is looped over, what is measured), then the conditions
+        for ln in f.lnodes:
+            ev.seq(ln)
+        for g_ in f.guard_nodes:
+            for flt in [x for x in [g_, *g_.find_all(nodes.Filter)] if isinstance(x, nodes.Filter) and x.name in _LEN_FILTERS and x.node is not None]:
+                ev.seq(flt.node)
+    for _, f in frs:
+        for g_ in f.guard_nodes:
+            ev.val(g_)
+    rep.require(not ev.unresolved, f"the length of {ev.unresolved} in terms of the collections of its object")
+    ev.recording = False
+    colls, atoms_ = list(ev.colls), list(ev.atoms)
+    rep.require(3 ** len(colls) * 2 ** len(atoms_) <= 20000, f"a parameter list over a few collections and conditions ({name}: {colls}, {atoms_})")
+    first_star = min(p_.idx for p_ in lst.params if p_.kind == "star")
+    lead = next((p_.what for p_ in lst.params if p_.kind in ("M", "N", "D")), None)  # the parameter(s) the list begins with
+    found: dict[str, tuple[str, int, Any]] = {}
+
+    def render(items: list[Any], out: list[tuple[int, Any]]) -> None:
+        for it_ in items:
+            if isinstance(it_[0], int):
+                f = it_[1]
+                if all(bool(ev.val(g_)) == pol for g_, (_, pol) in zip(f.guard_nodes, f.guards)):
+                    out.append(it_)
+            else:
+                for _ in range(int(ev.seq(it_[0]))):
+                    render(it_[1], out)
+
+    for lens in itertools.product((0, 1, 2), repeat=len(colls)):
+        for bools in itertools.product((False, True), repeat=len(atoms_)):
+            ev.env = {**dict(zip(colls, lens)), **dict(zip(atoms_, bools))}
+            out: list[tuple[int, Any]] = []
+            render(tree, out)
+            if not out:
+                continue
+            shown = {k: v for k, v in ev.env.items() if v}
+            for g in _groups(out):
+                if g.opened != lst.opened:  # the list itself: the group at the same place, with or without the separator in it
+                    continue
+                ps = [p_ for p_ in g.params if p_.kind != "none"]
+                k_star = next((k for k, p_ in enumerate(ps) if p_.kind == "star"), None)
+                if k_star is not None and not any(p_.kind in "MND" for p_ in ps[k_star + 1:]) and ps[k_star].text.strip() == "*":
+                    found.setdefault("separator-without-keyword-parameter", (
+                        "the separator `*` is written with no parameter after it (SyntaxError: named arguments must follow bare *)",
+                        ps[k_star].line, shown))
+                positional = [p_ for p_ in (ps if k_star is None else ps[:k_star]) if p_.kind in "MND"]
+                for a_, b_ in itertools.combinations(positional, 2):
+                    if not (a_.kind in "MD" and b_.kind in "MN"):
+                        continue
+                    if b_.idx < first_star and a_.what == b_.what == lead:
+                        # (the finding known for the collection the list begins with keeps its key)
+                        found.setdefault("positional-defaults", (f"{a_.what} before {b_.what}", a_.line, shown))
+                    elif b_.idx < first_star:
+                        found.setdefault(f"positional-defaults::{b_.what}", (
+                            f"`{b_.what}` is written before the separator `*,` (positional) behind `{a_.what}`, which may carry a "
+                            "default: a parameter without a default after one with a default is a SyntaxError", b_.line, shown))
+                    else:
+                        found.setdefault(f"separator-omitted::{b_.what}", (
+                            f"on a rendering on which the separator `*,` is not written, `{b_.what}` (written behind its place) is "
+                            f"positional and follows `{a_.what}`, which may carry a default: a parameter without a default after "
+                            "one with a default is a SyntaxError in the generated function", b_.line, shown))
+    return found
 
 
 # ---- R01.12 ---------------------------------------------------------------------------------------------------------------------------
@@ -1364,6 +1794,9 @@ class _TplRun:
                 self.bound.add(n.target)
         self._lazy_target: "str | None" = None
         self.chain: list[Any] = []  # the templates whose `include` is being expanded
+        self._lstack: list[tuple[int, nodes.Node]] = []  # the loops being expanded: (number of the run of the loop, its iterable)
+        self._ostack: list[tuple[str, str]] = []  # the macros / partials being expanded: (template, macro)
+        self._lcount = 0
         self.reset({})
         self.relevant: set[str] = set()
         self.opaque: list[str] = []
@@ -1442,6 +1875,9 @@ class _TplRun:
         def frag(*a: Any) -> Any:
             fr = tplq.Frag(*a)
             fr.targets = targets  # the elements of the enclosing loops, as the text spells them (parallel to .loops)
+            fr.lids = tuple(x[0] for x in self._lstack)  # which run of each enclosing loop (a macro expanded twice runs its loops twice)
+            fr.lnodes = tuple(x[1] for x in self._lstack)
+            fr.origin = self._ostack[-1] if self._ostack else None  # where the text is written down when not in the body itself
             return fr
 
         for n in body:
@@ -1466,7 +1902,11 @@ class _TplRun:
                             b2: dict[str, nodes.Node] = dict(zip(params[len(params) - len(m.defaults):], m.defaults))
                             b2.update(zip(params, call.args))
                             b2.update({k.key: k.value for k in call.kwargs})
-                            yield from self.frags(m.body, t2, b2, guards, gnodes, loops, depth + 1, targets)
+                            self._ostack.append((t2.name, m.name))
+                            try:
+                                yield from self.frags(m.body, t2, b2, guards, gnodes, loops, depth + 1, targets)
+                            finally:
+                                self._ostack.pop()
                             whole = whole or call is base
                     if not whole:
                         yield frag("expr", expr_text(c2), c.lineno, guards, gnodes, loops, c2)
@@ -1481,13 +1921,19 @@ class _TplRun:
                 if n.else_:
                     yield from self.frags(n.else_, ti, binds, neg, gn, loops, depth, targets)
             elif isinstance(n, nodes.For):
-                it = expr_text(sub(n.iter))
+                itn = sub(n.iter)
+                it = expr_text(itn)
                 tg = n.target.name if isinstance(n.target, nodes.Name) else ""
-                if n.test is not None:
-                    tt = sub(n.test)
-                    yield from self.frags(n.body, ti, binds, guards + ((expr_text(tt), True),), gnodes + (tt,), loops + (it,), depth, targets + (tg,))
-                else:
-                    yield from self.frags(n.body, ti, binds, guards, gnodes, loops + (it,), depth, targets + (tg,))
+                self._lcount += 1
+                self._lstack.append((self._lcount, itn))
+                try:
+                    if n.test is not None:
+                        tt = sub(n.test)
+                        yield from self.frags(n.body, ti, binds, guards + ((expr_text(tt), True),), gnodes + (tt,), loops + (it,), depth, targets + (tg,))
+                    else:
+                        yield from self.frags(n.body, ti, binds, guards, gnodes, loops + (it,), depth, targets + (tg,))
+                finally:
+                    self._lstack.pop()
                 if n.else_:
                     yield from self.frags(n.else_, ti, binds, guards, gnodes, loops, depth, targets)
             elif isinstance(n, nodes.Include):
@@ -1495,10 +1941,12 @@ class _TplRun:
                     t2 = self.jx.templates.get(x.value) if isinstance(x, nodes.Const) and isinstance(x.value, str) else None
                     if t2 is not None and depth < 4:
                         self.chain.append(ti)
+                        self._ostack.append((t2.name, "<top>"))
                         try:
                             yield from self.frags(t2.tree.body, t2, binds, guards, gnodes, loops, depth + 1, targets)
                         finally:
                             self.chain.pop()
+                            self._ostack.pop()
                         break
             elif isinstance(n, (nodes.With, nodes.Scope, nodes.CallBlock, nodes.FilterBlock, nodes.AssignBlock)):
                 yield from self.frags(getattr(n, "body", []), ti, binds, guards, gnodes, loops, depth, targets)
